@@ -90,8 +90,15 @@ class C11(Check):
             from vf.gen.simple import spec as mk, surf, glass
             n = 1.5
             R = -30.0
-            spec = mk([surf(R='inf', t=3.0, mat=glass(n), stop=True), surf(R=R, k=-n * n, t=R / (1 - n))],
-                      ap=('EPD', 10.0), fields=(0.0,), wls=(spec['wls'][0],))
+            if case['N'] % 3 == 0:
+                # or the other closed-form focusing element: a paraboloid mirror (one reflection: the rear focal length
+                # of the ABCD description is negative there)
+                from vf.gen.simple import MIRROR
+                spec = mk([surf(R=-120.0, k=-1.0, t=-60.0, mat=MIRROR, stop=True)], ap=('EPD', 10.0), fields=(0.0,),
+                          wls=(spec['wls'][0],))
+            else:
+                spec = mk([surf(R='inf', t=3.0, mat=glass(n), stop=True), surf(R=R, k=-n * n, t=R / (1 - n))],
+                          ap=('EPD', 10.0), fields=(0.0,), wls=(spec['wls'][0],))
         out.cls(*GL.spec_classes(spec))
         out.cls('N%d' % N if N <= 64 else 'N>64', 'odd_padding' if (G - N) % 2 else 'even_padding')
         finite = spec['obj']['t'] != GL.INF
@@ -196,6 +203,16 @@ class C11(Check):
         from optiland.mtf import FFTMTF, GeometricMTF
         m = FFTMTF(o, fields=[fld], wavelength=w, num_rays=N, grid_size=G)
         tan, sag = [np.asarray(v, dtype=float) for v in m.mtf[0]]
+        # several fields in one call: each field's curves are those of that field analysed alone
+        allf = o.fields.get_field_coords()
+        if len(allf) >= 2 and G * G * len(allf) <= 4_000_000:
+            mall = FFTMTF(o, fields='all', wavelength=w, num_rays=N, grid_size=G)
+            for i, f_ in enumerate(allf):
+                if tuple(map(float, f_)) == tuple(map(float, fld)):
+                    for nm, got_, want_ in (('tangential', mall.mtf[i][0], tan), ('sagittal', mall.mtf[i][1], sag)):
+                        out.close('mtf_of_field_in_a_multi_field_call', np.asarray(got_, dtype=float), want_, rtol=1e-12,
+                                  atol=1e-12, curve=nm, field=i, n_fields=len(allf))
+            out.cls('multi_field_mtf')
         # reference: |FFT| of my PSF, zero-phase bound on the same grid
         ref = ref_psf(P, G)
         ref0 = ref_psf(np.abs(P).astype(complex), G)
